@@ -670,7 +670,40 @@ def rbShowSel : Option (RP.Path × RP.RField) → String
   | none => "*"
   | some (pre, fd) => ".".intercalate ((pre ++ [fd.name]).map bytesToString)
 
-def handleRb (i o : List String) : String :=
+def splitOn10 : Bytes → List Bytes
+  | [] => [[]]
+  | c :: rest =>
+    if c == 10 then [] :: splitOn10 rest
+    else match splitOn10 rest with
+      | [] => [[c]]
+      | h :: t => (c :: h) :: t
+
+/-- the response STREAM of the same binding fed the same message twice must be the unary body twice, each followed by
+    the JSON delimiter; a failing path fails the stream with the same code and writes nothing -/
+def rbStreamWhy (res st : String) : Option String :=
+  match res.splitOn ":", st.splitOn ":" with
+  | _, ["nostream"] => some "response transcoder bound for JSON does not stream"
+  | ["err", code], ["err", code', w] =>
+    if code != code' then some s!"stream error {code'} differs from unary {code}"
+    else if w != "x" then some "stream wrote bytes although the path is invalid" else none
+  | ["err", _], _ => some "stream accepted a path the unary transcoder rejects"
+  | ["ok", h], ["ok", hs] =>
+    match (parseHex h).bind rbJson?, parseHex hs with
+    | some j, some bs =>
+      match splitOn10 bs with
+      | [d1, d2, []] =>
+        match rbJson? d1, rbJson? d2 with
+        | some j1, some j2 =>
+          if rbRender j1 != rbRender j then some "first streamed message differs from the unary body"
+          else if rbRender j2 != rbRender j then some "second pass over the same message renders a different body"
+          else none
+        | _, _ => some "streamed document is not JSON"
+      | _ => some "stream is not two newline-delimited documents"
+    | _, _ => some "unparsable stream output"
+  | ["ok", _], _ => some "stream rejected a path the unary transcoder accepts"
+  | _, _ => some "unparsable stream output"
+
+def handleRb1 (i o : List String) : String :=
   match i, o with
   | [schS, msgS, pathS], [orcS, res] =>
     match rbSchema? schS, rbMsg? msgS, parseHex pathS, rbOracle? orcS with
@@ -720,6 +753,17 @@ def handleRb (i o : List String) : String :=
       | _ => "BAD rb result"
     | _, _, _, _ => "BAD rb parse"
   | _, _ => "BAD rb arity"
+
+def handleRb (i o : List String) : String :=
+  match o with
+  | [orcS, res, st] =>
+    let v := handleRb1 i [orcS, res]
+    if v.startsWith "OK" then
+      match rbStreamWhy res st with
+      | some why => s!"VIOL response-stream-differs-from-unary: {why}"
+      | none => v
+    else v
+  | _ => "BAD rb arity"
 
 def handle : Handler
   | "rb" :: _, "PANIC" :: why => s!"VIOL panic (response transcoder panicked on this response_body path) {" ".intercalate (why.map (fun h => (parseHex h).map bytesToString |>.getD h))}"
